@@ -49,24 +49,18 @@ theorem seqOf_wf {v : Val} (h : WF v) : WF (.seq (seqOf v)) := by
     obtain ⟨s, _, rfl⟩ := List.mem_map.mp hx
     exact .str s
 
-theorem keepNew_sub {rs : List Val} : ∀ {ls l : List Val}, keepNew rs ls = some l → ∀ x ∈ l, x ∈ ls := by
+theorem keepNew_sub {rs : List Val} : ∀ {ls : List Val}, ∀ x ∈ keepNew rs ls, x ∈ ls := by
   intro ls
   induction ls with
-  | nil => intro l h x hx; simp only [keepNew, Option.some.injEq] at h; subst h; cases hx
+  | nil => intro x hx; simp [keepNew] at hx
   | cons v r ih =>
-    intro l h x hx
-    simp only [keepNew] at h
-    split at h
-    · cases h
-    · exact List.mem_cons_of_mem _ (ih h x hx)
-    · cases hk : keepNew rs r with
-      | none => simp [hk] at h
-      | some l' =>
-        simp only [hk, Option.map, Option.some.injEq] at h
-        subst h
-        rcases List.mem_cons.mp hx with rfl | hx
-        · exact List.mem_cons_self
-        · exact List.mem_cons_of_mem _ (ih hk x hx)
+    intro x hx
+    simp only [keepNew] at hx
+    split at hx
+    · exact List.mem_cons_of_mem _ (ih x hx)
+    · rcases List.mem_cons.mp hx with rfl | hx
+      · exact List.mem_cons_self
+      · exact List.mem_cons_of_mem _ (ih x hx)
 
 theorem mergeKVsWith_keys_nodup (f : Val → Val → TPath → Out Val) (p : TPath) :
     ∀ (b a m : KVs), (keys a).Nodup → mergeKVsWith f a b p = .ok m → (keys m).Nodup := by
@@ -114,36 +108,31 @@ theorem mergeKVsWith_wf (f : Val → Val → TPath → Out Val) (p : TPath) (hf 
         subst hm
         exact hf k e y _ (wa.2 k e hla) (wb.2 k y hlb) hz
 
-theorem intoMap_wf (d : Val) (wd : WF d) {v : Val} (wv : WF v) {m : KVs} (h : intoMap d v = .ok (some m)) : MWF m := by
+theorem intoMap_wf (d : Val) (wd : WF d) {v : Val} (wv : WF v) {m : KVs} (h : intoMap d v = .ok m) : MWF m := by
   have := intoMap_eqv d wd (Eqv.refl v wv) wv wv
   rw [h] at this
   exact this.2.1
 
-theorem toBuild_wf {v : Val} (wv : WF v) {m : KVs} (h : toBuild v = some m) : MWF m := by
+theorem toBuild_wf {v : Val} (wv : WF v) {m : KVs} (h : toBuild v = .ok m) : MWF m := by
   have := toBuild_eqv (Eqv.refl v wv) wv wv
   rw [h] at this
   exact this.2.1
 
-theorem mergeOptMapsWith_wf (mk : KVs → KVs → TPath → Out KVs) (p : TPath) (hmk : MkWF mk p)
-    {r l : Option KVs} (hr : ∀ m, r = some m → MWF m) (hl : ∀ m, l = some m → MWF m) {z : Val}
-    (h : mergeOptMapsWith mk r l p = .ok z) : WF z := by
-  cases r with
-  | some a =>
-    cases l with
-    | some b =>
-      simp only [mergeOptMapsWith] at h
-      cases hm : mk a b p with
-      | ok m => simp only [hm, Out.bind, Out.ok.injEq] at h; subst h; exact WF.map_iff.mpr (hmk a b m (hr a rfl) (hl b rfl) hm)
-      | err e => simp [hm, Out.bind] at h
-      | panic s => simp [hm, Out.bind] at h
-    | none => simp only [mergeOptMapsWith, Out.ok.injEq] at h; subst h; exact WF.map_iff.mpr (hr a rfl)
-  | none =>
-    cases l with
-    | none => simp only [mergeOptMapsWith, Out.ok.injEq] at h; subst h; exact WF.map_iff.mpr MWF.nil
-    | some b =>
-      cases b with
-      | nil => simp only [mergeOptMapsWith, Out.ok.injEq] at h; subst h; exact WF.map_iff.mpr MWF.nil
-      | cons _ _ => simp [mergeOptMapsWith] at h
+theorem bind_ok {α β : Type} {x : Out α} {f : α → Out β} {z : β} (h : x.bind f = .ok z) : ∃ a, x = .ok a ∧ f a = .ok z := by
+  cases x with
+  | ok a => exact ⟨a, rfl, h⟩
+  | err e => simp [Out.bind] at h
+  | panic s => simp [Out.bind] at h
+
+theorem convMerge_wf (mk : KVs → KVs → TPath → Out KVs) (p : TPath) (hmk : MkWF mk p) (conv : Val → Out KVs)
+    (hc : ∀ v m, WF v → conv v = .ok m → MWF m) {e o z : Val} (we : WF e) (wo : WF o)
+    (h : convMerge mk conv e o p = .ok z) : WF z := by
+  simp only [convMerge] at h
+  obtain ⟨r, hr, h⟩ := bind_ok h
+  obtain ⟨l, hl, h⟩ := bind_ok h
+  obtain ⟨m, hm, h⟩ := bind_ok h
+  simp only [Out.ok.injEq] at h; subst h
+  exact WF.map_iff.mpr (hmk r l m (hc e r we hr) (hc o l wo hl) hm)
 
 theorem okMap_wf {x : Out KVs} {z : Val} (h : (x.bind fun m => .ok (.map m)) = .ok z) : ∃ m, x = .ok m ∧ z = .map m := by
   cases x with
